@@ -138,7 +138,7 @@ def run_seq(seq, res, cc, fs):
                 sm.update_current(d)
                 m.update(d)
             elif op == "upd_all":
-                d = {"u": _val("u", i), "logl": _val("logl", i), "beta": _val("beta", i), "logz": _val("logz", i)}
+                d = {"u": _val("u", i), "logl": _val("logl", i), "beta": _val("beta", i), "logz": _val("logz", i), "iter": i}  # a complete iteration record (as the sampler writes it)
                 sm.update_current(d)
                 m.update(d)
                 d["u"][...] = -5.0
@@ -303,7 +303,7 @@ def run_prefix(case):
 
 
 # --------------------------------------------------------------------------------------- sampler layer
-S_OPS = ["results", "posterior", "posterior_rs", "posterior_logw", "posterior_raw", "posterior_raw_logw", "to_dict", "get_current", "get_hist_u", "get_hist_logl_flat", "get_last_u", "evidence", "sample_ret"]
+S_OPS = ["pickle", "deepcopy", "results", "posterior", "posterior_rs", "posterior_logw", "posterior_raw", "posterior_raw_logw", "to_dict", "get_current", "get_hist_u", "get_hist_logl_flat", "get_last_u", "evidence", "sample_ret"]
 
 
 def _sampler_run(seq, base, scribble):
@@ -316,7 +316,15 @@ def _sampler_run(seq, base, scribble):
     last_ret = None
     for op in seq:
         with OwnedRandom(99):
-            if op == "results":
+            if op in ("pickle", "deepcopy"):
+                # the live sampler goes through a pickle round trip / is deep-copied and the COPY carries on: everything read through the public
+                # accessors afterwards must be the copy's own, growing, history
+                import copy as _copy
+                import pickle as _pickle
+                s = _pickle.loads(_pickle.dumps(s)) if op == "pickle" else _copy.deepcopy(s)
+                p.sampler, p.state = s, s.state
+                r = s.results()
+            elif op == "results":
                 r = s.results()
             elif op == "posterior":
                 r = s.posterior(return_blobs=True)
